@@ -127,3 +127,42 @@ Section AttrValidate.
 End AttrValidate.
 Arguments attribute_validate {V}.
 Arguments required_validate {V}.
+
+(* ---- declared types: which Python types an attribute of each kind takes (documentation reading) ---------------------------
+   type_allowed c: the types validate may accept (the declared type itself, documented coercions: bool is an int, numbers and
+   numeric strings for float/Decimal, datetime for date, parseable strings for the date/time types, bytes/int/hex string for UUID);
+   type_core c: the declared type itself, which must be accepted;  type_result c t: the type of the value validate goes on with. *)
+Definition type_allowed (c : convkind) : list pytag :=
+  match c with
+  | CBool => [TgBool]
+  | CStr => [TgStrNum; TgStrText]
+  | CInt => [TgInt; TgBool; TgStrNum]
+  | CReal => [TgFloat; TgInt; TgBool; TgStrNum; TgDecimal]
+  | CDecimal => [TgDecimal; TgInt; TgBool; TgFloat; TgStrNum]
+  | CBlob => [TgBytes]
+  | CDate => [TgDate; TgDatetime; TgStrNum; TgStrText]
+  | CTime => [TgTime; TgStrNum; TgStrText]
+  | CTimedelta => [TgTimedelta; TgStrNum; TgStrText]
+  | CDatetime => [TgDatetime; TgStrNum; TgStrText]
+  | CUuid => [TgUuid; TgBytes; TgInt; TgBool; TgStrNum; TgStrText]
+  end.
+Definition type_core (c : convkind) : list pytag :=
+  match c with
+  | CBool => [TgBool] | CStr => [TgStrNum; TgStrText] | CInt => [TgInt] | CReal => [TgFloat] | CDecimal => [TgDecimal]
+  | CBlob => [TgBytes] | CDate => [TgDate] | CTime => [TgTime] | CTimedelta => [TgTimedelta] | CDatetime => [TgDatetime] | CUuid => [TgUuid]
+  end.
+Definition type_result (c : convkind) (t : pytag) : pytag :=
+  match c with
+  | CBool => TgBool | CStr => TgStrText
+  | CInt => match t with TgBool => TgBool | _ => TgInt end      (* True/False are kept as they are *)
+  | CReal => TgFloat | CDecimal => TgDecimal | CBlob => TgBytes | CDate => TgDate | CTime => TgTime
+  | CTimedelta => TgTimedelta | CDatetime => TgDatetime | CUuid => TgUuid
+  end.
+Definition tag_in (t : pytag) (l : list pytag) : bool := existsb (pytag_eqb t) l.
+
+(* bool attributes: does the translated BoolConverter.validate take values that are not bool (it applies bool() to anything)? *)
+Definition bool_accepts_any_type : bool :=
+  match type_dispatch CBool TgStrText with TyAccept _ => true | TyReject _ => false end.
+
+(* Decimal(precision, scale): a value needs more digits than declared when |v| >= 10^(precision - scale) *)
+Definition dec_exceeds_precision (precision scale : Z) (v : num) : Prop := num_le (NFin (10 ^ (precision - scale)) 1) v.
